@@ -29,6 +29,7 @@
 #include <time.h>
 #include <unistd.h>
 #include "hx.h"
+#include "fault.h"
 
 /* ---------------------------------------------------------------- scripted socket layer */
 /* Several endpoints (hosts h0.example .. h3.example) each with their own connection state; `EP k` selects the one the
@@ -65,7 +66,7 @@ int __wrap_getaddrinfo(const char *node, const char *service, const struct addri
 	pending_ep = (node && node[0] == 'h' && node[1] >= '0' && node[1] < '0' + NEP) ? node[1] - '0' : 0;
 	printf("E getaddrinfo ep=%d host=%s port=%s\n", pending_ep, node ? node : "-", service ? service : "-");
 	if (eps[pending_ep].gai_fail) return EAI_FAIL;
-	ai = calloc(1, sizeof(*ai)); sa = calloc(1, sizeof(*sa));
+	ai = H_CALLOC(1, sizeof(*ai)); sa = H_CALLOC(1, sizeof(*sa));
 	sa->sin_family = AF_INET;
 	ai->ai_family = AF_INET; ai->ai_socktype = SOCK_STREAM; ai->ai_protocol = IPPROTO_TCP; ai->ai_addr = (struct sockaddr *)sa; ai->ai_addrlen = sizeof(*sa);
 	*res = ai; (void)hints;
@@ -123,7 +124,7 @@ static int env_cmd(char **tok, int n) {
 	if (!strcmp(tok[0], "S2C")) {
 		size_t l; unsigned char *b = hx_dec(tok[1], &l);
 		Ep *e = &eps[cur_ep];
-		if (e->s2c_len + l > e->s2c_cap) { e->s2c_cap = (e->s2c_len + l) * 2 + 64; e->s2c = realloc(e->s2c, e->s2c_cap); }
+		if (e->s2c_len + l > e->s2c_cap) { e->s2c_cap = (e->s2c_len + l) * 2 + 64; e->s2c = H_REALLOC(e->s2c, e->s2c_cap); }
 		memcpy(e->s2c + e->s2c_len, b, l); e->s2c_len += l; free(b);
 	} else if (!strcmp(tok[0], "CHUNKS")) { Ep *e = &eps[cur_ep]; e->nchunks = e->chunk_i = 0; for (i = 1; i < n && e->nchunks < 4096; i++) e->chunks[e->nchunks++] = atol(tok[i]);
 	} else if (!strcmp(tok[0], "SENDCAPS")) { Ep *e = &eps[cur_ep]; e->ncaps = e->cap_i = 0; for (i = 1; i < n && e->ncaps < 4096; i++) e->sendcaps[e->ncaps++] = atol(tok[i]);
@@ -138,7 +139,7 @@ static int env_cmd(char **tok, int n) {
 	return 1;
 }
 static void ask_script(const char *what, int ep) {
-	char *line = NULL; size_t cap = 0; char **tok = malloc(sizeof(char *) * 5000);
+	char *line = NULL; size_t cap = 0; char **tok = H_MALLOC(sizeof(char *) * 5000);
 	printf("Q %s ep=%d\n.\n", what, ep); fflush(stdout);
 	while (getline(&line, &cap, stdin) > 0) {
 		int n;
@@ -222,13 +223,14 @@ static char cred_user[1024] = "anon", cred_key[70000] = "anon";
 static FILE *devnull;
 
 int main(void) {
-	char *line = NULL; size_t cap = 0; char **tok = malloc(sizeof(char *) * 5000);
+	char *line = NULL; size_t cap = 0; char **tok = H_MALLOC(sizeof(char *) * 5000);
 	setvbuf(stdout, NULL, _IOFBF, 1 << 16);
 	while (getline(&line, &cap, stdin) > 0) {
 		int n, i;
 		line[strcspn(line, "\n")] = 0;
 		n = hx_split(line, tok, 5000);
 		if (n == 0) continue;
+		if (fault_cmd(tok, n)) { printf(".\n"); fflush(stdout); continue; }
 		if (!strcmp(tok[0], "CRED")) {
 			/* CRED <loginHex> <keyHex>: credentials used by the following NEW / BNEW / HANEW */
 			size_t l1, l2; unsigned char *a = hx_dec(tok[1], &l1), *b = hx_dec(tok[2], &l2);
@@ -236,7 +238,7 @@ int main(void) {
 			free(a); free(b); printf("R cred user=%zu key=%zu\n", strlen(cred_user), strlen(cred_key));
 		} else if (!strcmp(tok[0], "HMAC")) {
 			/* HMAC <alg> <keyHex> <dataHex> */
-			size_t l1, l2; unsigned char *k = hx_dec(tok[2], &l1), *d = hx_dec(tok[3], &l2); KSI_CTX *c2 = NULL; KSI_DataHash *h = NULL; int rc; char *ks = malloc(l1 + 1);
+			size_t l1, l2; unsigned char *k = hx_dec(tok[2], &l1), *d = hx_dec(tok[3], &l2); KSI_CTX *c2 = NULL; KSI_DataHash *h = NULL; int rc; char *ks = H_MALLOC(l1 + 1);
 			memcpy(ks, k, l1); ks[l1] = 0; KSI_CTX_new(&c2);
 			rc = KSI_HMAC_create(c2, (KSI_HashAlgorithm)atoi(tok[1]), ks, d, l2, &h);
 			printf("R hmac rc=0x%x", rc);
@@ -267,7 +269,7 @@ int main(void) {
 				KSI_Signature_serialize(sig, &after, &al);
 				printf("R verify rc=0x%x", rc);
 				if (result != NULL) printf(" res=%d code=%s", result->finalResult.resultCode, KSI_VerificationErrorCode_toString(result->finalResult.errorCode)); else printf(" res=- code=-");
-				printf(" src=%s\n", (al == bl && before && after && memcmp(before, after, al) == 0) ? "same" : "diff");
+				printf(" src=%s\n", (before == NULL || after == NULL) ? "err" : (al == bl && memcmp(before, after, al) == 0) ? "same" : "diff");
 				KSI_VerificationContext_clean(&vc);
 			}
 			KSI_free(before); KSI_free(after); KSI_PolicyVerificationResult_free(result); KSI_DataHash_free(doc); KSI_PublicationData_free(up); KSI_PublicationsFile_free(pf); if (!borrowed) KSI_Signature_free(sig);
@@ -360,7 +362,7 @@ int main(void) {
 					KSI_Integer_free(to);
 				}
 				KSI_Signature_serialize(sig, &after, &al);
-				printf("R extend rc=0x%x src=%s", rc, (al == bl && before && after && memcmp(before, after, al) == 0) ? "same" : "diff");
+				printf("R extend rc=0x%x src=%s", rc, (before == NULL || after == NULL) ? "err" : (al == bl && memcmp(before, after, al) == 0) ? "same" : "diff");
 				if (rc == KSI_OK && ext != NULL) { unsigned char *ser = NULL; size_t el = 0; if (KSI_Signature_serialize(ext, &ser, &el) == KSI_OK) { printf(" ext="); hx_print(ser, el); } KSI_free(ser); }
 				printf("\n");
 			}
